@@ -221,6 +221,14 @@ class Samples(Job):
                             dk[(side.name, p)] = side.w.derive_key(p, 16)
                         except Exception as e:
                             dk[(side.name, p)] = type(e).__name__
+                # "derive_key(purpose, n) yields identical bytes on both sides for every purpose" - and for every n, whatever was derived before:
+                # one purpose asked for with several lengths, short one first (each side; one of them is the Deferred API)
+                for side in (a, b):
+                    for n in (8, 40, 16):
+                        try:
+                            dk[(side.name, "len", n)] = side.w.derive_key("several-lengths", n)
+                        except Exception as e:
+                            dk[(side.name, "len", n)] = type(e).__name__
                 self._dk = dk
             a.api("close")
             b.api("close")
@@ -241,6 +249,10 @@ class Samples(Job):
                 return "derive_key gives different bytes for two spellings of one purpose that are equal after NFC"
             if dk[("A", "p")] == dk[("A", "q")]:
                 return "derive_key gives the same bytes for different purposes"
+            for n in (8, 40, 16):
+                ka, kb = dk[("A", "len", n)], dk[("B", "len", n)]
+                if not isinstance(ka, bytes) or not isinstance(kb, bytes) or len(ka) != n or len(kb) != n or ka != kb:
+                    return "derive_key('several-lengths', %d) after other lengths of the same purpose: A got %r, B got %r" % (n, ka, kb)
         if not same and (evs(a, "message") or evs(b, "message") or evs(a, "versions") or evs(b, "versions")):
             return "codes %r / %r differ but data was delivered" % self.PAIRS[i][:2]
         return None
